@@ -364,7 +364,14 @@ func (c *Caller) InvokeContext(ctx context.Context, id string, name string, args
 			return result.Value(returnType)
 		}
 	}
-	return (<-result).Value(returnType)
+	select {
+	case <-ctx.Done():
+		calls.Delete(index)
+		results.Delete(index)
+		return nil, ctx.Err()
+	case result := <-result:
+		return result.Value(returnType)
+	}
 }
 
 func (c *Caller) UseService(remoteService interface{}, id string, namespace ...string) {
